@@ -5,6 +5,8 @@
 (* mean of the model's own single-point evaluations.                       *)
 (*                                                                         *)
 (* One event per scenario:                                                 *)
+(*   Mean  values, limits  the mesh values per parameter and the declared   *)
+(*                   hard limits of each                                   *)
 (*   Mean  weights   per call parameter (after scale, background): the     *)
 (*                   weight vector returned by get_mesh                    *)
 (*         pts       for every point of the FULL mesh, in lexicographic    *)
@@ -77,6 +79,11 @@ ApplyMean(e) ==
     IN  IF r.refused # (NumActive(e.weights) > e.maxpd) THEN <<"refusal", ToString(NumActive(e.weights))>>
         ELSE IF r.refused THEN <<>>
         ELSE IF r.raised THEN <<"raised", r.error>>
+        \* only distribution points inside the limits the definition declares take part (for the numbered members
+        \* of a vector parameter: the limits of the vector's table row)
+        ELSE IF \E p \in 1..Len(e.values) : \E k \in 1..Len(e.values[p]) :
+                    ~(FLeq(e.limits[p][1], e.values[p][k]) /\ FLeq(e.values[p][k], e.limits[p][2])) THEN
+             <<"point-outside-declared-limits", ToString(<<e.values, e.limits>>)>>
         ELSE IF Len(e.pts) # N THEN <<"harness-points", ToString(<<Len(e.pts), N>>)>>
         ELSE IF a.amb THEN <<>>          \* counted by the harness as skipped (flag in the log)
         ELSE IF N = 0 /\ ~FVecBits(r.Iq, FVecConst(e.nq, e.background)) THEN <<"empty-mesh-is-background", ToString(r.Iq)>>
